@@ -23,6 +23,8 @@ type Session struct {
 	// configuration ops seen so far (world, epoch, gasmap, payable): replayed on a freshly constructed world, they give
 	// it the configuration of the running one; its accounts are then copied over (fresh-object comparison of C13)
 	cfgLog []string
+	// notifierLine: the `notifier` op in force (precedes the `world` op in the configuration a fresh replica is given)
+	notifierLine string
 	nCalls int
 }
 
@@ -100,8 +102,13 @@ func (s *Session) execDeterminism(line string) (obs string) {
 	var fresh *world.World
 	if !isCall {
 		switch op {
+		case "notifier":
+			s.notifierLine = line
 		case "world":
 			s.cfgLog = []string{line}
+			if s.notifierLine != "" {
+				s.cfgLog = []string{s.notifierLine, line}
+			}
 		case "epoch", "gasmap", "payable":
 			s.cfgLog = append(s.cfgLog, line)
 		}
